@@ -276,6 +276,39 @@ def filterFailures (mode : String) (maxFailures : Nat) (yi : List (Option Rat)) 
       .ok (yi.map (fun y => match y with | some r => some r | none => some v))
   else .ok yi
 
+/-- `yi[mask_no_failures] = yi_filtered`: put the computed targets back at the successful positions
+(`none` = `"F"`).  `none` result: the number of values does not match the number of successes. -/
+def reinsert : List (Option Vec) → Vec → Option (List (Option Rat))
+  | [], [] => some []
+  | [], _ :: _ => none
+  | none :: rest, vals => (reinsert rest vals).map (none :: ·)
+  | some _ :: _, [] => none
+  | some _ :: rest, v :: vals => (reinsert rest vals).map (some v :: ·)
+
+/-- What the surrogate is fitted on for a history WITH failures (`Optimizer._tell`):
+the objective scaler / scalarisation see the successful rows only, the results go back to their
+positions, and `_filter_failures` imputes the failures.  `userMode` is CBO's `filter_failures`
+(`"min"`, `"mean"`, …), mapped by `mapFilterFailures` before it reaches the optimizer. -/
+def fitTargets (single : Bool) (sc : Scaler) (s : Strategy) (w : Vec) (userMode : String)
+    (maxFailures : Nat) (told : List (Option Vec)) : Except String Vec :=
+  let ok := told.filterMap id
+  match ok with
+  | [] => .error "no successful observation to fit the objective scaler on"
+  | _ =>
+    let t := if single then singleTargets sc (ok.map sumL) else mooTargets sc s w ok
+    match t with
+    | none => .error "targets"
+    | some tv =>
+      match reinsert told tv with
+      | none => .error "shape"
+      | some yi =>
+        match filterFailures (mapFilterFailures userMode) maxFailures yi with
+        | .error e => .error e
+        | .ok out =>
+          match mapOpt id out with
+          | some v => .ok v
+          | none => .error "a failure string reaches the estimator"
+
 /-! ### acquisition and choice -/
 
 /-- `gaussian_lcb`: `mu − kappa·std` per candidate -/
